@@ -64,7 +64,8 @@ package ct
 //@ at sha assert [key-hash-of-final-issuer] (ipi.res ==> sha.data == chain[2].RawSubjectPublicKeyInfo) && (!ipi.res ==> sha.data == chain[1].RawSubjectPublicKeyInfo)
 
 //@ func MerkleTreeLeafForEmbeddedSCT
-//@ props C03
+//@ props C03 C05
+//@ modifies nothing
 //@ arith int
 //@ site RemoveSCTList#1 as rm
 //@ site sha256.Sum256#1 as sha
@@ -140,6 +141,7 @@ package ct
 
 //@ func (SignatureVerifier).VerifySignature
 //@ props C05
+//@ requires validKey(s.PubKey)
 //@ pure
 //@ site tls.VerifySignature#1 as v
 //@ ensures [delegates-with-the-configured-key] result == v.res
@@ -147,23 +149,25 @@ package ct
 
 //@ func (SignatureVerifier).VerifySCTSignature
 //@ props C05 C12
+//@ requires validKey(s.PubKey)
 //@ pure
 //@ site SerializeSCTSignatureInput#1 as ser
 //@ site VerifySignature#1 as v
 //@ requires entry.Leaf.TimestampedEntry != nil
 //@ requires entry.Leaf.TimestampedEntry.EntryType == PrecertLogEntryType ==> entry.Leaf.TimestampedEntry.PrecertEntry != nil
 //@ ensures [unserialisable-is-an-error] ser.res1 != nil ==> result != nil && !v.called
-//@ ensures [accepts-only-if-the-signature-over-the-rfc6962-input-verifies] result == nil ==> ser.res1 == nil && v.called && v.res == nil
+//@ ensures [accepts-exactly-when-the-signature-over-the-rfc6962-input-verifies] result == nil <==> ser.res1 == nil && v.called && v.res == nil
 //@ at ser assert [input-of-this-sct-and-entry] ser.sct == sct && ser.entry == entry
 //@ at v assert [verifies-the-sct-signature-over-exactly-those-bytes] v.data == ser.res0 && v.sig == sct.Signature && v.s == s
 
 //@ func (SignatureVerifier).VerifySTHSignature
 //@ props C05 C12
+//@ requires validKey(s.PubKey)
 //@ pure
 //@ site SerializeSTHSignatureInput#1 as ser
 //@ site VerifySignature#1 as v
 //@ ensures [unserialisable-is-an-error] ser.res1 != nil ==> result != nil && !v.called
-//@ ensures [accepts-only-if-the-signature-over-the-rfc6962-input-verifies] result == nil ==> ser.res1 == nil && v.called && v.res == nil
+//@ ensures [accepts-exactly-when-the-signature-over-the-rfc6962-input-verifies] result == nil <==> ser.res1 == nil && v.called && v.res == nil
 //@ at ser assert [input-of-this-sth] ser.sth == sth
 //@ at v assert [verifies-the-sth-signature-over-exactly-those-bytes] v.data == ser.res0 && v.sig == sth.TreeHeadSignature && v.s == s
 
